@@ -115,6 +115,15 @@ class Canon(ast.NodeTransformer):
             return ast.copy_location(new, n)
         return n
 
+    def visit_Return(self, n):
+        self.generic_visit(n)
+        # return A if c else B  ->  if c: return A  else: return B   (so that path rules see both exits)
+        if isinstance(n.value, ast.IfExp) and not self._has_walrus(n.value.test):
+            t = n.value
+            new = ast.If(test=t.test, body=[ast.copy_location(ast.Return(value=t.body), n)], orelse=[ast.copy_location(ast.Return(value=t.orelse), n)])
+            return ast.copy_location(new, n)
+        return n
+
     def visit_IfExp(self, n):
         self.generic_visit(n)
         if isinstance(n.test, ast.UnaryOp) and isinstance(n.test.op, ast.Not):
